@@ -391,8 +391,8 @@ func (w *World) sessObs(m map[string]string, now time.Time) SessObs {
 			s.ExpLeft = clipLeft(c.ExpireAfter - g)
 		}
 	}
-	_, s.App1 = m["app1"]
-	_, s.App2 = m["app2"]
+	_, s.App1 = m[AppKeys["app1"]]
+	_, s.App2 = m[AppKeys["app2"]]
 	for k := range m {
 		if !knownKeys[k] {
 			s.Unknown = append(s.Unknown, k)
